@@ -1,3 +1,4 @@
+import MiniconfVerif.Lemmas.GenTieTranscode
 import MiniconfVerif.Lemmas.GenTieText
 import MiniconfVerif.Lemmas.Factor
 import MiniconfVerif.Lemmas.TextKeys
@@ -159,5 +160,20 @@ theorem source_key_find_is_model (lk : Lookup) :
       | .ok i => .ok i
       | .error _ => .error (.NotFound 1))) :=
   ⟨fun s => strFind_tie s lk, fun h v => intFind_tie v lk h⟩
+
+open MiniconfVerif.Gen MiniconfVerif.Gen.Transcode MiniconfVerif.GenTie MiniconfVerif.PathIter in
+/-- The traversal callbacks of `Transcode for Path<T, S>` and `Transcode for JsonPath<T>` **as translated from node.rs /
+jsonpath.rs** (the closures handed to `traverse_by_key`; `core::fmt::Write` on a bounded buffer is `capWrite`) are the
+model's `Target.cb`: they fail exactly when the model's callback does, and otherwise leave exactly the model's buffer. -/
+theorem source_transcode_callbacks_are_model (buf : Str) (cap : Nat) (a : CbArg) :
+    (∀ sep : Char, match Target.cb (.path sep buf cap) a with
+      | some t => (Path.callback sep (buf, cap) a.index a.name a.len).2 = .ok () ∧
+          t = .path sep (Path.callback sep (buf, cap) a.index a.name a.len).1.1 cap
+      | none => (Path.callback sep (buf, cap) a.index a.name a.len).2 = .error ()) ∧
+    (match Target.cb (.json buf cap) a with
+      | some t => (JsonPath.callback (buf, cap) a.index a.name a.len).2 = .ok () ∧
+          t = .json (JsonPath.callback (buf, cap) a.index a.name a.len).1.1 cap
+      | none => (JsonPath.callback (buf, cap) a.index a.name a.len).2 = .error ()) :=
+  ⟨fun sep => path_callback_tie sep buf cap a, jsonpath_callback_tie buf cap a⟩
 
 end MiniconfVerif.C04
